@@ -23,6 +23,21 @@ REQS = {
     "http10": (b"POST /sync HTTP/1.0\r\nContent-Length: 2\r\n\r\nhi", [b"hi"]),
 }
 RAISING = ("raw-finish-raises", "raw-headers-raise", "raw-headers-fail-async")
+def _gz(data):
+    import gzip
+    import io
+    buf = io.BytesIO()
+    with gzip.GzipFile(fileobj=buf, mode="wb", mtime=0) as f:
+        f.write(data)
+    return buf.getvalue()
+
+
+_PLAIN = b"hello world " * 3
+_GZ = _gz(_PLAIN)
+# served with decompress_request=True: a complete gzip body, and one whose last 6 bytes never come (Content-Length says so)
+REQS["gzip"] = (b"POST /sync HTTP/1.1\r\nHost: h\r\nContent-Encoding: gzip\r\nContent-Length: %d\r\n\r\n" % len(_GZ) + _GZ, [_PLAIN])
+REQS["gzip-trunc"] = (b"POST /sync HTTP/1.1\r\nHost: h\r\nContent-Encoding: gzip\r\nContent-Length: %d\r\n\r\n" % (len(_GZ) - 6) + _GZ[:-6],
+                      [_PLAIN])
 MODES = ["raw-finish-raises", "raw-headers-raise", "raw-headers-fail-async", "raw-sync", "raw-reqtimeout", "raw-async0", "raw-gated-headers", "raw-gated-data", "raw-respond-later", "raw-never",
          "app-sync", "app-async", "app-stream", "app-stream-async", "app-early-error", "app-early-finish"]
 FAULTS = ["eof", "reset", "silence", "none"]
@@ -194,10 +209,11 @@ def execute(reqname, mode, k, fault, release_first, j=None):
     rec.respond_error = None
     with World() as w:
         sd = make_server_delegate(mode, rec)
+        gzkw = {"decompress_request": True} if reqname.startswith("gzip") else {}
         if mode == "raw-reqtimeout":
-            server = HTTPServer(sd, idle_connection_timeout=10)
+            server = HTTPServer(sd, idle_connection_timeout=10, **gzkw)
         else:
-            server = HTTPServer(sd, idle_connection_timeout=10, body_timeout=5)
+            server = HTTPServer(sd, idle_connection_timeout=10, body_timeout=5, **gzkw)
         sock = w.socket()
         stream = IOStream(sock)
         server.handle_stream(stream, ("1.2.3.4", 1))
